@@ -452,6 +452,22 @@ use {debug_detail, man_link, new_flag, syscall};
 
 /// Lock `mutex` clearing any poison set.
 fn lock<'a, T>(mutex: &'a std::sync::Mutex<T>) -> std::sync::MutexGuard<'a, T> {
+    #[cfg(a10_verif)]
+    if verif::scheduled() {
+        // Under a deterministic scheduler never block in the OS: a descheduled
+        // lock holder would deadlock the run.
+        loop {
+            verif::yield_point("lock");
+            match mutex.try_lock() {
+                Ok(guard) => return guard,
+                Err(std::sync::TryLockError::Poisoned(err)) => {
+                    mutex.clear_poison();
+                    return err.into_inner();
+                }
+                Err(std::sync::TryLockError::WouldBlock) => verif::yield_point("lock.wait"),
+            }
+        }
+    }
     match mutex.lock() {
         Ok(guard) => guard,
         Err(err) => {
@@ -464,6 +480,8 @@ fn lock<'a, T>(mutex: &'a std::sync::Mutex<T>) -> std::sync::MutexGuard<'a, T> {
 /// Same as [`lock`], but doesn't block if the mutex is locked.
 #[cfg(any(target_os = "android", target_os = "linux"))]
 fn try_lock<'a, T>(mutex: &'a std::sync::Mutex<T>) -> Option<std::sync::MutexGuard<'a, T>> {
+    #[cfg(a10_verif)]
+    verif::yield_point("try_lock");
     match mutex.try_lock() {
         Ok(guard) => Some(guard),
         Err(std::sync::TryLockError::Poisoned(err)) => {
@@ -552,7 +570,14 @@ impl PollingState {
     pub(crate) fn set_polling(&self, is_polling: bool) -> bool {
         const _BOOL_CAST_CHECK_TRUE: () = assert!(true as u8 == IS_POLLING);
         const _BOOL_CAST_CHECK_FALSE: () = assert!(false as u8 == NOT_POLLING);
+        #[cfg(a10_verif)]
+        verif::yield_point("polling.swap");
         let state = self.0.swap(is_polling as u8 | NOT_AWOKEN, Ordering::AcqRel);
+        #[cfg(a10_verif)]
+        {
+            let fields = [std::ptr::from_ref(self).addr() as u64, is_polling as u64, u64::from(state), 0, 0, 0];
+            verif::emit("SetPolling", fields);
+        }
         (state & IS_AWOKEN) != 0
     }
 
@@ -561,7 +586,14 @@ impl PollingState {
     /// Returns a boolean indicating if the caller should submit an event to
     /// wake up the polling thread.
     pub(crate) fn wake(&self) -> bool {
+        #[cfg(a10_verif)]
+        verif::yield_point("polling.fetch_or");
         let state = self.0.fetch_or(IS_AWOKEN, Ordering::AcqRel);
+        #[cfg(a10_verif)]
+        {
+            let fields = [std::ptr::from_ref(self).addr() as u64, u64::from(state), 0, 0, 0, 0];
+            verif::emit("Wake", fields);
+        }
         state == (IS_POLLING | NOT_AWOKEN)
     }
 }
